@@ -16,7 +16,8 @@ def build_image(rng, hostile=0, cycles=False, focus=None):
     img.want_block2 = (not hostile and not cycles and rng.random() < 0.5)
     kids = iw.random_tree(rng, intl=intl or dirc, links=rng.random() < 0.5, dbs=img.dbs, nfiles=rng.randint(1, 9), ndirs=rng.randint(0, 5),
                           maxsize=60000 if kind == "dd" else 120000, fill488=(dirc and not hostile and not cycles and rng.random() < 0.5),
-                          collide=(not hostile and not cycles and rng.random() < 0.5))
+                          collide=(not hostile and not cycles and rng.random() < 0.5),
+                          multicache=(dirc and not hostile and not cycles and kind != "hdf"))
     data = bytearray(img.build(kids))
     muts = []
     if hostile:
